@@ -6,7 +6,7 @@ func init() {
 	register(&Property{
 		ID:        "C06",
 		Technique: "static analysis: dominance/path search on a labelled CFG (ordering of durable effects on the persist/apply/snapshot/restart path), guard implication by truth table, argument provenance on canonical terms",
-		Explanation: "Decides the ordering obligations named in the property's anchors on every path: (S1) the snapshot file is written and fsynced before its WAL marker; (S2) in the snapshot goroutine SaveSnap < Sync < Release < UpdateSnapshotState < Compact, each predecessor successful, and for an incoming snapshot persist < Sync < raftDone < ApplySnapshot < Release; (S3) at start the engine data is cleaned or restored from the snapshot's checkpoint before the node is (re)started, and only snapshots at or below the WAL's commit index are considered; (S4) apply completion (snapshot trigger, applyWaitDone, snapshot restore) is reported only after raft persistence was signalled; (S5) the replay boundary is the last WAL entry; (S6) the checkpoint data is complete before the raft snapshot that names it is created and saved.",
+		Explanation: "Decides the ordering obligations named in the property's anchors on every path: (S1) the snapshot file is written and fsynced before its WAL marker; (S2) in the snapshot goroutine SaveSnap < Sync < Release < UpdateSnapshotState < Compact, each predecessor successful, and for an incoming snapshot persist < Sync < raftDone < ApplySnapshot < Release; (S3) at start the engine data is cleaned or restored from the snapshot's checkpoint before the node is (re)started, and only snapshots at or below the WAL's commit index are considered; (S4) apply completion (snapshot trigger, applyWaitDone, snapshot restore) is reported only after raft persistence was signalled; (S5) the replay boundary is the last WAL entry; (S6) the checkpoint data is complete before the raft snapshot that names it is created and saved. (S6, write-back) the same HLL registration rule as C14-B1: an acknowledged PFADD is in the dirty cache that is flushed before the checkpoint named by the snapshot.",
 		NotDecided: "end-to-end equality of served data with the acknowledged history, every crash instant (only the order of durable effects is decided, not their atomicity), purge timing, rsync transfer, engine behaviour.",
 		Assumptions: []string{
 			"calls to Panic*/Fatal* logger methods do not return",
@@ -71,6 +71,7 @@ func runC06(c *Ctx) {
 		r.ArgValues("C06-S6", u, an.Call("raft.IExtRaftStorage.CreateSnapshot"), 0, []string{"p1"}, 1)
 		r.ArgValues("C06-S6", u, an.Call("raft.IExtRaftStorage.CreateSnapshot"), 2, []string{"data"}, 1)
 	}
+	hllWriteBack(c, "C06-S6")
 	if u := c.unit("C06-S6", "node.(*raftNode).beginSnapshot"); u != nil {
 		// the engine checkpoint is requested synchronously (outside the goroutine), see also C14-B2
 		r.Order("C06-S6", u, an.AnyCall().Where("go statement", func(u *an.Unit, s *an.Site) bool { return s.Go }),
